@@ -15,6 +15,7 @@
 (* end-of-line marker before endstream.                                     *)
 EXTENDS XRefHistory
 CONSTANTS Objs, MaxRevs, Styles, MaxPieces,
+          ZeroFree,       \* TRUE: listing object 0 again in an update is explored as a free choice
           STRICT_LENGTH   \* TRUE: no carve-out for ShortIntoTrailingWS / NullTakenAsZero (negative control)
 
 VARIABLES mode, hist, phase, cur, part, xref, seen, trl, body
@@ -31,7 +32,7 @@ StateNow == IF Len(hist) = 0 THEN [n \in Objs |-> Absent] ELSE StateAfter(hist, 
 
 \* object 0 has to be listed when the free list changes (an object is freed
 \* into it); otherwise listing it again is the writer's choice
-ZeroChoices(ops, k) == IF k = 1 \/ \E n \in Objs : ops[n] = "freeb" THEN {TRUE} ELSE BOOLEAN
+ZeroChoices(ops, k) == IF k = 1 \/ \E n \in Objs : ops[n] = "freeb" THEN {TRUE} ELSE IF ZeroFree THEN BOOLEAN ELSE {FALSE}
 \* subsection styles matter for tables only
 StyleChoices(kind, k) == IF k = 1 \/ kind = "stream" THEN {"runs"} ELSE Styles
 
@@ -48,7 +49,9 @@ AddRevision ==
 \* xref.go readXRef on FileOf(hist); sections are numbered by revision
 
 File == FileOf(hist)
-Sec(k) == File.sections[Len(hist) + 1 - k]
+Sec(k) == SectionOf(hist, k)
+\* Reader.get only needs the objects of the file
+Objects == [objects |-> ObjectsOf(hist)]
 
 \* findXRef: the last startxref names the newest section
 StartRead ==
@@ -57,12 +60,17 @@ StartRead ==
   /\ seen' = {<<Len(hist), "main">>}
   /\ UNCHANGED <<mode, hist, xref, trl, body>>
 
+\* `if first { copy the trailer entries }': the dictionary of the table (for a
+\* hybrid section: of the table, not of the /XRefStm stream) or of the stream
+TakeTrailer == trl' = IF trl = 0 THEN cur ELSE trl
+
 \* case "xref": readXRefTable, then the /XRefStm of the same section
 ReadTable ==
   /\ phase = "read" /\ part = "main" /\ Sec(cur).kind \in {"table", "hybrid"}
   /\ xref' = DecodeTable(xref, Sec(cur), 1, 0)
-  /\ part' = IF Sec(cur).kind = "hybrid" THEN "xstm" ELSE "trailer"
-  /\ UNCHANGED <<mode, hist, phase, cur, seen, trl, body>>
+  /\ part' = IF Sec(cur).kind = "hybrid" THEN "xstm" ELSE "prev"
+  /\ TakeTrailer
+  /\ UNCHANGED <<mode, hist, phase, cur, seen, body>>
 
 ReadXRefStm ==
   /\ phase = "read" /\ part = "xstm"
@@ -70,22 +78,16 @@ ReadXRefStm ==
      THEN UNCHANGED <<xref, seen>>
      ELSE /\ seen' = seen \cup {<<cur, "xstm">>}
           /\ xref' = DecodeStream(xref, Sec(cur).xrefstm.entries, 1)
-  /\ part' = "trailer"
+  /\ part' = "prev"
   /\ UNCHANGED <<mode, hist, phase, cur, trl, body>>
 
 \* default: readXRefStream
 ReadXRefStream ==
   /\ phase = "read" /\ part = "main" /\ Sec(cur).kind = "stream"
   /\ xref' = DecodeStream(xref, Sec(cur).entries, 1)
-  /\ part' = "trailer"
-  /\ UNCHANGED <<mode, hist, phase, cur, seen, trl, body>>
-
-\* `if first { copy the trailer entries }'
-TakeTrailer ==
-  /\ phase = "read" /\ part = "trailer"
-  /\ trl' = IF trl = 0 THEN cur ELSE trl
   /\ part' = "prev"
-  /\ UNCHANGED <<mode, hist, phase, cur, xref, seen, body>>
+  /\ TakeTrailer
+  /\ UNCHANGED <<mode, hist, phase, cur, seen, body>>
 
 \* /Prev, guarded by the seen set
 FollowPrev ==
@@ -106,7 +108,7 @@ AddPiece ==
   /\ UNCHANGED <<mode, hist, phase, cur, part, xref, seen, trl>>
 
 Next == AddRevision \/ StartRead \/ ReadTable \/ ReadXRefStm \/ ReadXRefStream
-        \/ TakeTrailer \/ FollowPrev \/ AddPiece
+        \/ FollowPrev \/ AddPiece
 Spec == Init /\ [][Next]_vars
 
 \* bounded number of pieces (state constraint)
@@ -122,13 +124,13 @@ ProbeGens == {0, 1, 2, MaxGen}
 \* the reader's table answers as the standard prescribes
 LookupOK ==
   phase = "done" =>
-    \A n \in ProbeNums, g \in ProbeGens : ImplGet(File, xref, n, g) = RefPhys(hist, n, g)
+    LET F == Objects IN \A n \in ProbeNums, g \in ProbeGens : ImplGet(F, xref, n, g) = RefPhys(hist, n, g)
 \* the trailer reported is the newest one
 TrailerOK == phase = "done" => trl = RefTrailer(hist)
 \* the file built for the history means what the history means (PdfFile!Lookup)
 FileOK ==
   (mode = "history" /\ phase = "build" /\ Len(hist) >= 1) =>
-    \A n \in ProbeNums, g \in ProbeGens : Lookup(File, n, g) = RefPhys(hist, n, g)
+    LET F == File IN \A n \in ProbeNums, g \in ProbeGens : Lookup(F, n, g) = RefPhys(hist, n, g)
 
 \* stream extent, for every end-of-line marker and every declared length
 Eols == {<<10>>, <<13>>, <<13, 10>>}
